@@ -343,7 +343,7 @@ def eval_slice(I, st, sl, mod):
 
 
 def _is_slice(x):
-    return isinstance(x, tuple) and x and x[0] == "slice"
+    return isinstance(x, tuple) and bool(x) and isinstance(x[0], str) and x[0] == "slice"
 
 
 def _full_slice(x):
@@ -360,6 +360,8 @@ def getitem(I, st, base, sl, mod, node):
             return base[slice(idx[1], idx[2], idx[3])]
         raise Unsupported("symbolic tuple index")
     if isinstance(base, Ref) and base.kind == "list":
+        if "__symlen__" in st.cell(base):
+            return I.ext["__symlist_getitem__"](I, st, base, idx, node)
         lst = st.cell(base)["__list__"]
         if isinstance(idx, int):
             if not (-len(lst) <= idx < len(lst)):
@@ -667,7 +669,7 @@ def b_isinstance(I, st, args, kw, node):
             names.append(x.info["name"])
         elif isinstance(x, ModuleV):
             names.append(x.dotted)
-        elif isinstance(x, tuple) and x and x[0] == "class":
+        elif isinstance(x, tuple) and x and isinstance(x[0], str) and x[0] == "class":
             names.append(x[2])
         else:
             raise Unsupported(f"isinstance against {x!r}")
@@ -752,7 +754,7 @@ def b_list(I, st, args, kw, node):
         c = st.cell(v)
         r = st.new_list(list(c["__list__"]))
         for k in c:
-            if k.startswith("__sym"):
+            if k.startswith("__") and k != "__list__":
                 st.cell(r)[k] = c[k]
         return r
     if isinstance(v, Opaque) and v.tag in ("maplist", "symseq"):
@@ -1201,6 +1203,8 @@ def np_array(I, st, args, kw, node):
             return st.new_arr(Arr((n,) + rows[0].shape, fn2, rows[0].sort))
     if isinstance(v, Opaque) and v.tag == "symseq":
         return st.new_arr(v.info["arr"])
+    if isinstance(v, tuple) and all(is_conc(x) or is_sym(x) for x in v):
+        return np_array(I, st, [st.new_list(list(v))], kw, node)
     if kind_of(v) is not None:
         return st.new_arr(Arr((), lambda: v, kind_of(v)))
     raise Unsupported(f"np.array({v!r}) at line {node.lineno}")
@@ -1415,6 +1419,23 @@ def np_rand(I, st, args, kw, node):
 def np_seed(I, st, args, kw, node):
     st.ghost["rng"] = st.ghost.get("rng", []) + [("reseed", args[0] if args else None, node.lineno)]
     return None
+
+
+@ext("numpy.squeeze", "np.squeeze(a, axes): drops the size-1 axes, element order preserved")
+def np_squeeze(I, st, args, kw, node):
+    a = st.arr(args[0])
+    axes = args[1] if len(args) > 1 else kw.get("axis")
+    if isinstance(axes, int):
+        axes = (axes,)
+    if a.ndim == 2 and tuple(axes) == (1,):
+        I.oblige(f"squeeze-axis-has-size-1@{node.lineno}", st, to_z3(a.shape[1], "int") == 1, node)
+        return st.new_arr(Arr((a.shape[0],), lambda i: a.at(i, 0), a.sort, prov=("squeeze", a)))
+    raise Unsupported("np.squeeze shape")
+
+
+@ext("numpy.dtype")
+def np_dtype(I, st, args, kw, node):
+    return Opaque("dtype", name=args[0])
 
 
 @ext("numpy.finfo")
